@@ -1,8 +1,10 @@
 package main
 
 import (
+	"fmt"
 	"go/token"
 	"go/types"
+	"os"
 	"sort"
 	"strings"
 
@@ -692,4 +694,75 @@ func leadsToBoolReturn(from, succ *ssa.BasicBlock, want bool) bool {
 		return true
 	})
 	return ok && reached
+}
+
+// inlineMembership: v is a boolean that can only be true after an element satisfying elemOK compared
+// equal to an element of a list satisfying listOK – the found-flag of a membership loop written in
+// place (`found := false; for … { if x == e { found = true; break } }`).
+func inlineMembership(use ssa.Instruction, v ssa.Value, elemOK, listOK func(ssa.Value) bool) bool {
+	phi, isPhi := stripIfaceConv(v).(*ssa.Phi)
+	if !isPhi {
+		return false
+	}
+	if use == nil || use.Block() == nil {
+		use = phi // no particular use: every input edge counts
+	}
+	srcs, all := constSources(use, v, 0)
+	if os.Getenv("VERIF_DEBUG") != "" {
+		fmt.Fprintf(os.Stderr, "inlineMembership %s all=%v n=%d\n", v.Name(), all, len(srcs))
+	}
+	if !all || len(srcs) == 0 {
+		return false
+	}
+	// a value compared through the address of a local copy stands for what was stored in the copy
+	held := func(x ssa.Value) []ssa.Value {
+		out := []ssa.Value{x}
+		if al, ok := x.(*ssa.Alloc); ok {
+			for _, r := range *al.Referrers() {
+				if st, ok := r.(*ssa.Store); ok && st.Addr == ssa.Value(al) {
+					out = append(out, st.Val)
+				}
+			}
+		}
+		return out
+	}
+	isElem := func(x ssa.Value) bool {
+		for _, v := range held(x) {
+			if elemOK(v) {
+				return true
+			}
+		}
+		return false
+	}
+	fromList := func(x ssa.Value) bool {
+		for _, v := range held(x) {
+			for _, r := range rootsAll(v) {
+				if ia, ok := r.(*ssa.IndexAddr); ok && listOK(ia.X) {
+					return true
+				}
+			}
+		}
+		return false
+	}
+	eq := equalEdge(func(a, b ssa.Value) bool {
+		return (isElem(a) && fromList(b)) || (isElem(b) && fromList(a))
+	}, true)
+	sawTrue := false
+	for _, s := range srcs {
+		b, isB := isConstBool(s.Val)
+		if !isB {
+			return false
+		}
+		if !b {
+			continue
+		}
+		sawTrue = true
+		if ok, w := mustPassAt(s, eq); !ok {
+			if os.Getenv("VERIF_DEBUG") != "" {
+				fmt.Fprintf(os.Stderr, "  true source not behind equality: %v\n", w)
+			}
+			return false
+		}
+	}
+	return sawTrue
 }
